@@ -37,6 +37,10 @@ FLAVOURS = {
     "tsan": ("-O1 -g -fsanitize=thread -DDEBUG=true", "-O1 -g -fsanitize=thread", "-fsanitize=thread"),
     "plain-O2": ("-O2 -g -DDEBUG=true", "-O2 -g", ""),
     "plain-O0": ("-O0 -g -DDEBUG=true", "-O1 -g", ""),
+    # plain char is unsigned on AArch64/ARM/PowerPC/s390x/RISC-V Linux: same code, other signedness
+    "uchar-O2": ("-O2 -g -funsigned-char -DDEBUG=true", "-O2 -g -funsigned-char", ""),
+    # the project's Release flags: assertions compiled out (CBOR_ASSERT and assert() vanish), -O3
+    "release-O3": ("-O3 -DNDEBUG", "-O2 -g", ""),
     "ubsan-O2": ("-O2 -g -fsanitize=undefined -fno-sanitize=nonnull-attribute -fno-sanitize-recover=all -DDEBUG=true",
                  "-O2 -g -fsanitize=undefined -fno-sanitize=nonnull-attribute -fno-sanitize-recover=all", "-fsanitize=undefined"),
     # plain-O2 objects, linked with --wrap so any direct libc allocation call made by libcbor is seen
